@@ -363,6 +363,23 @@ def install_ns(mon):
 
     wrap(NestedSampler, "populate_live_points", None, after_populate)
 
+    # ---- training policy: a *forced* training (one that overrides the
+    # cooldown) is documented for an empty pool, the switch from uninformed
+    # sampling and an interrupted training only - never while the flow
+    # proposal still holds unused pool points
+    def before_train(self, force=False):
+        fp = getattr(self, "_flow_proposal", None)
+        if force and fp is not None and getattr(fp, "populated", False) \
+                and getattr(fp, "indices", None) and \
+                getattr(self, "completed_training", True):
+            mon.violation(
+                "policy:forced-training-with-unused-flow-pool",
+                f"it={self.iteration}: {len(fp.indices)} unused pool points, "
+                f"uninformed_sampling={self.uninformed_sampling}")
+        mon.count("ns.train_calls")
+
+    wrap(NestedSampler, "train_proposal", before_train, None)
+
     # ---- finalise
     def before_finalise(self):
         mon.in_finalise += 1
@@ -931,6 +948,41 @@ def install_ins_stop(mon):
               f"{K}-{start} vs {len(crit)}")
             return
 
+        # The rule is evaluated from the *configured* criteria, tolerances
+        # and any/all (job kwargs), resolved with the documented alias table,
+        # against the values recorded per canonical criterion - not from the
+        # sampler's own parsed configuration.
+        ALIASES = {"ratio": "ratio", "ratio_all": "ratio",
+                   "ratio_ns": "ratio_ns", "Z_err": "Z_err",
+                   "evidence_error": "Z_err", "log_dZ": "log_dZ",
+                   "log_evidence": "log_dZ", "ess": "ess",
+                   "fractional_error": "fractional_error"}
+        kw = mon.job.get("kwargs", {})
+        u_crit = kw.get("stopping_criterion", "ratio")
+        u_tol = kw.get("tolerance", 0.0)
+        if isinstance(u_crit, str):
+            u_crit = [u_crit]
+        if not isinstance(u_tol, list):
+            u_tol = [u_tol]
+        u_any = kw.get("check_criteria", "any") == "any"
+        u_names = [ALIASES.get(c) for c in u_crit]
+        usable = all(n is not None for n in u_names) and \
+            len(u_names) == len(u_tol)
+        rec["configured"] = {"criteria": u_names, "tolerance": u_tol,
+                             "any": u_any}
+        if usable:
+            if [float(t) for t in u_tol] != tol or \
+                    u_names != list(self.stopping_criterion) or \
+                    u_any != any_:
+                V("configured-criteria!=criteria-in-use",
+                  f"configured {list(zip(u_names, u_tol))} "
+                  f"{'any' if u_any else 'all'}; sampler uses "
+                  f"{list(zip(self.stopping_criterion, tol))} "
+                  f"{'any' if any_ else 'all'}")
+            crit = [[v[n] for n in u_names] for v in st["all"]]
+            tol = [float(t) for t in u_tol]
+            any_ = u_any
+
         def reached(c):
             flags = [ci <= ti for ci, ti in zip(c, tol)]
             return any(flags) if any_ else all(flags)
@@ -1413,6 +1465,44 @@ def install_draws(mon):
 
 
 INSTALLERS["draws"] = install_draws
+
+
+# --------------------------------------------------------------------------
+# Fault schedule "kill at event": die at the first likelihood call after the
+# k-th pool population of the flow proposal started / when the k-th training
+# of the flow proposal starts / at the k-th level of the importance sampler
+def install_kill_event(mon, spec):
+    from nessai.proposal.flowproposal import FlowProposal
+    from nessai.proposal.importance import ImportanceFlowProposal
+
+    st = {"population": 0, "training": 0, "level": 0}
+    ev, k = spec["event"], int(spec.get("k", 1))
+
+    def arm():
+        mon.model.kill_after = mon.model.points + 1
+        mon.model.kill_hook = mon.flush
+        mon.flags["kill_event_armed"] = True
+
+    def before_populate(self, *a, **kw):
+        st["population"] += 1
+        if ev == "population" and st["population"] == k:
+            arm()
+
+    def before_train(self, *a, **kw):
+        st["training"] += 1
+        if ev == "training" and st["training"] == k:
+            mon.flags["kill_event_armed"] = True
+            mon.flush()
+            os._exit(9)
+
+    def before_ins_draw(self, *a, **kw):
+        st["level"] += 1
+        if ev == "level" and st["level"] == k:
+            arm()
+
+    wrap(FlowProposal, "populate", before_populate, None)
+    wrap(FlowProposal, "train", before_train, None)
+    wrap(ImportanceFlowProposal, "draw", before_ins_draw, None)
 
 
 # --------------------------------------------------------------------------
